@@ -21,7 +21,14 @@ Theorem watcher_one_group_one_namespace :
   = ["internal/netstate/watcher_linux.go:osWatch:netlink.Config{Groups: unix.RTMGRP_LINK}"].
 Proof. vm_compute. reflexivity. Qed.
 
+(* ... and every batch the socket delivered is handed to notify by the receive loop itself (Model/Watcher.v: one
+   notify per batch, in order, none dropped before the per-subscriber buffers): no queue, goroutine or non-blocking
+   hand-over between Receive and notify. *)
+Theorem watcher_delivers_every_batch : oswatch_notify_direct = true.
+Proof. reflexivity. Qed.
+
 Theorem seams_scanned : (0 < seam_files_scanned)%Z.
 Proof. reflexivity. Qed.
 
 Print Assumptions watcher_one_group_one_namespace.
+Print Assumptions watcher_delivers_every_batch.
